@@ -29,18 +29,22 @@ GSpecR == Init /\ [][GStepR]_vars
 \* (MockExchange supports nothing else) - a restriction of the harness, not of the property
 Linkable(t) == {e \in Range(t.ex) : \A p \in DOMAIN t.ins : t.ins[p].ex = e => t.ins[p].kind = "spot"}
 
+\* an open point of the spec becomes {"anyOf": [..]} for the harness' comparator
+J(S) == IF Cardinality(S) = 1 THEN CHOOSE x \in S : TRUE ELSE [anyOf |-> S]
+
 MapJ(t, e) ==
     LET m == MapFor(t, e) IN
     [e   |-> e, xk |-> m.xk,
      an  |-> [j \in DOMAIN m.as  |-> m.as[j][2]],                 \* exchange_assets()
-     inn |-> [j \in DOMAIN m.ins |-> m.ins[j][2]],                \* exchange_instruments()
+     inn |-> {m.ins[j][2] : j \in DOMAIN m.ins},                  \* exchange_instruments() (distinct names)
      ia  |-> [p \in 1..(Len(t.as) + 1)  |-> AssetIndexToName(t, e, p)],
-     ii  |-> [p \in 1..(Len(t.ins) + 1) |-> InsIndexToName(t, e, p)],
+     ii  |-> [p \in 1..(Len(t.ins) + 1) |-> J(IndexToNameSet(m.ins, p))],
      na  |-> [n \in 1..MaxOf(AssetNames) |-> AssetNameToIndex(t, e, n)],
-     ni  |-> [n \in 1..MaxOf(InsNames)   |-> InsNameToIndex(t, e, n)]]
+     ni  |-> [n \in 1..MaxOf(InsNames)   |-> J(NameToIndexSet(m.ins, n))]]
 
 Scenario ==
     [defs |-> defs,
+     uni  |-> InternalNamesDistinct(DefSet),      \* is the alignment of InstrumentStates claimed?
      ex   |-> tables.ex, as |-> tables.as, ins |-> tables.ins,
      maps |-> [k \in DOMAIN tables.ex |-> MapJ(tables, tables.ex[k])],
      sti  |-> [p \in DOMAIN InstrumentStates(tables) |->
